@@ -137,16 +137,16 @@ def handle : List Sx → Sx
         | some r => .list [qstSx (legacyQ s), qobjSx r]
         | none => .list [qstSx (legacyQ s), .atom "ValueError"]
       | _ => err "mode"
-  | [.atom "sd", d0, d1, q] =>
-    -- set_pickle_digits with an already validated pair: the attributes afterwards
-    match parseDigit d0, parseDigit d1, parseQ q with
-    | some d0, some d1, some q =>
-      let r := setDigits (d0, d1) q
+  | [.atom "sd", d0, d1, n0, n1, q] =>
+    -- set_pickle_digits(raw digits pair; which references are numbers): the attributes afterwards
+    match parseDigit d0, parseDigit d1, n0.toBool?, n1.toBool?, parseQ q with
+    | some d0, some d1, some n0, some n1, some q =>
+      let r := setDigits (validateDigits (d0, d1) (n0, n1)) q
       let dsx := fun (o : Obj) => match o.digits with
         | some p => Sx.list [digitSx p.1, digitSx p.2]
         | none => Sx.atom "-"
       .list [dsx r.self, .list (r.derivs.map fun kd => .list [.atom kd.1, dsx kd.2])]
-    | _, _, _ => err "sd"
+    | _, _, _, _, _ => err "sd"
   | [.atom "cols", isz, .list rows] =>
     match isz.toNat?, rows.mapM Sx.nats? with
     | some isz, some rows =>
